@@ -23,6 +23,7 @@ func init() {
 			"T2 Next emits exactly a pending look-ahead element of one source and clears that look-ahead; " +
 			"T3 with both look-aheads pending the selector is applied to (first head, second head) in this order and the first head is emitted iff it returned true; with one pending that one is emitted only after the other source reported exhaustion; (zero,false) is returned only when both are exhausted; " +
 			"T4 HasNext is idempotent (no further environment call) and agrees with the following Next; " +
+			"T6 the package's iterator constructors return the same reset capability on every path; " +
 			"T5 a successful Reset restores exactly the state Init establishes (every field iteration writes), and fails with an error otherwise.",
 		NotDecided: "the merged sequence as a value (induction over the inputs); behaviour of ill-behaved sources whose HasNext is not monotone.",
 	})
@@ -397,6 +398,44 @@ func runC18(c *Ctx) {
 		}
 	}
 	c.Saw(initFn, hasNext, next, reset)
+
+	// T6: the package's own iterator constructors hand out the same capabilities on every path (an input that is
+	// resettable for one argument and not for another makes Reset fail for inputs that could be reset before)
+	reseter := c.P.LookupTypeAny(ir.Module, "Reseter")
+	if reseter != nil {
+		ri, _ := reseter.Underlying().(*types.Interface)
+		n := 0
+		for _, fn := range c.P.FuncsOf("container/iterable") {
+			if fn.Signature.Recv() != nil || fn.Object() == nil || !fn.Object().Exported() || fn.Parent() != nil {
+				continue
+			}
+			yes, no := 0, 0
+			var at ssa.Instruction
+			for _, ret := range ir.Returns(fn) {
+				for _, rv := range ret.Results {
+					for _, o := range phiClosure(rv) {
+						mi, ok := o.(*ssa.MakeInterface)
+						if !ok || namedOf(mi.Type()) == nil || namedOf(mi.Type()).Obj().Name() != "Iterator" {
+							continue
+						}
+						if types.Implements(mi.X.Type(), ri) {
+							yes++
+						} else {
+							no++
+							at = ret
+						}
+					}
+				}
+			}
+			if yes+no == 0 {
+				continue
+			}
+			n++
+			c.Decide("C18.T6", fn, "constructor returns iterators with the same reset capability on every path", at, !(yes > 0 && no > 0),
+				"this constructor returns a resettable iterator on some paths and a non-resettable one on others: Mixer.Reset fails (or restarts only one side) for an input that could be reset before")
+		}
+		_ = n
+	}
 }
 
 func eventsString(es []ai.Event) string {
